@@ -602,7 +602,7 @@ pub fn with_session<F: FnOnce(&mut Session)>(id: u64, stratum: &str, cfg: &Cfg, 
     alt.set_uuid(&[0xEE; 16]);
     alt.get_request().set_eid(0x77);
     alt.get_response().set_eid(0x78);
-    {
+    if !QUIET.load(std::sync::atomic::Ordering::Relaxed) {
         // a Set EID and a vendor-support query processed by the alternate context beforehand
         let mut b = [0u8; 64];
         let mut rb = [0u8; 64];
